@@ -35,7 +35,6 @@ M = [
  ("complete_ignores_trailing", "src/parser/complete.rs", "            messages.push(msg);\n            input = new_input;\n", "            messages.push(msg);\n            input = new_input;\n            if input.len() <= 2 { input = &input[input.len()..]; }\n", ["C04", "C09"], "<= 2 leftover bytes accepted"),
  ("streaming_list_off_by_one", "src/parser/streaming.rs", "self.pending_list_entries = u64::from(glr.num_vals) + 2;", "self.pending_list_entries = u64::from(glr.num_vals.max(1)) + 2;", ["C03", "C09"], "empty value list mis-parsed"),
  ("status_u64_only_width8", "src/parser/common.rs", "tlf if <u32>::check_tlf(tlf) => map(<u32>::parse_with_tlf(input, tlf), Self::Status32),\n            tlf if <u64>", "tlf if <u32>::check_tlf(tlf) => map(<u32>::parse_with_tlf(input, tlf), Self::Status32),\n            tlf if tlf.len == 8 && <u64>", ["C03", "C12"], "5-7 byte status rejected"),
- ("oom_keeps_raw_len", "src/transport/decode.rs", "        if buf.push(b).is_err() {\n            self.reset(buf);", "        if buf.push(b).is_err() {\n            let l = self.raw_msg_len;\n            self.reset(buf);\n            self.raw_msg_len = l;", ["C17", "C14", "C16"], "byte count survives OutOfMemory"),
  # equivalent on purpose: every check must stay silent
  ("EQUIV_done_keeps_crc", "src/transport/decode.rs", "                        let calculated_crc = {\n                            let mut crc = CRC_X25.digest();\n                            core::mem::swap(&mut crc, &mut self.crc);\n                            crc.finalize()\n                        };", "                        let calculated_crc = self.crc.clone().finalize();", [], "end sequence keeps the old digest (re-initialised at the next start sequence anyway)"),
  ("EQUIV_arraybuf_extend_scribbles", "src/util.rs", "        if self.num_elements + other.len() > N {\n            return Err(OutOfMemory);\n        }", "        if self.num_elements + other.len() > N {\n            let room = N - self.num_elements;\n            self.buffer[self.num_elements..].copy_from_slice(&other[..room]);\n            return Err(OutOfMemory);\n        }", [], "failing extend scribbles beyond the logical length"),
